@@ -172,7 +172,15 @@ class Gen:
             return ['linutil', [[rng.choice(BETAS), rng.choice(INT_COLS + POS_COLS)] for _ in range(rng.randrange(1, 4))]]
         if k == 'logit':
             utils = {str(kk): s(depth - 1) for kk in (1, 2, 3)}
-            avs = {str(kk): ['var', f'av{kk}'] for kk in (1, 2, 3)} if rng.random() < 0.6 else None
+            r_av = rng.random()
+            if r_av < 0.5:
+                avs = {str(kk): ['var', f'av{kk}'] for kk in (1, 2, 3)}
+            elif r_av < 0.65:
+                # availabilities given as constants, one alternative switched off for everybody
+                off = rng.choice([1, 2, 3])
+                avs = {str(kk): ['num', 0.0 if kk == off else 1.0] for kk in (1, 2, 3)}
+            else:
+                avs = None
             return [rng.choice(['loglogit', 'logit']), utils, avs, ['var', 'ch']]
         return self.leaf()
 
